@@ -438,7 +438,9 @@ func (ega *EnhancedGroupAggregator) AddPostAggregationExpression(outputField, or
 		}
 
 		// Check if input field is an expression (contains function calls)
-		isInputExpression := strings.Contains(field.InputField, "(") && strings.Contains(field.InputField, ")")
+		// or is an arithmetic expression over columns such as "t + 1" or "t * u"
+		isInputExpression := (strings.Contains(field.InputField, "(") && strings.Contains(field.InputField, ")")) ||
+			isArithmeticInput(field.InputField)
 
 		// If input expression itself contains aggregation calls, skip creating an aggregator for this field
 		// Use dynamic function registry instead of hardcoded list
@@ -598,6 +600,24 @@ func (ega *EnhancedGroupAggregator) AddPostAggregationExpression(outputField, or
 	ega.postProcessor.AddExpression(outputField, originalExpr, requiredFieldNames, adjustedTemplate)
 
 	return nil
+}
+
+// isArithmeticInput reports whether the argument of an aggregate call is an arithmetic
+// expression over columns (t + 1, t * u) rather than a column reference, "*", a backtick
+// identifier or a string literal. Such an argument has to be evaluated per row; it is not
+// the name of an input column.
+func isArithmeticInput(s string) bool {
+	s = strings.TrimSpace(s)
+	if s == "" || s == "*" {
+		return false
+	}
+	if len(s) >= 2 {
+		first, last := s[0], s[len(s)-1]
+		if (first == '`' || first == '\'' || first == '"') && last == first && strings.Count(s, string(first)) == 2 {
+			return false
+		}
+	}
+	return strings.ContainsAny(s, "+-*/%")
 }
 
 // GetResults returns results with post-aggregation expressions evaluated
